@@ -183,7 +183,9 @@ func c14Measure(ctx *Ctx) ([]c14Row, []string, error) {
 					for _, sc := range scombos {
 						// strict servers are built through both constructors in turn (NewStrictHandler / NewStrictHandlerWithOptions)
 						withOptions := k.strict && (op+n+sc[0])%2 == 1
-						resp, err := k.p.Call(J{"do": "serve", "req": c14Reqs[op], "opt": J{"mw": n, "stop": stop, "smw": sc[0], "sstop": sc[1], "sel": 0, "status": 200, "errh": withOptions}})
+						resp, err := k.p.Call(J{"do": "serve", "req": c14Reqs[op], "opt": J{"mw": n, "stop": stop, "smw": sc[0], "sstop": sc[1], "sel": 0, "status": 200, "errh": withOptions,
+							// every other cell is observed on a server that has served the same request before: the order is per request, nothing carries over
+							"warm": (op + n + sc[0]) % 2}})
 						if err != nil {
 							return nil, nil, err
 						}
